@@ -267,8 +267,25 @@ def run (P : Program) (D : Dispatch) (m : Mem) : Mem :=
   | .ok m' => m'
   | .error _ => m
 
+
+/-! ## the driver's `copyKernel`
+
+The byte image the loader extracts from `amd/driver/memcopy.hsaco` (symbol `copyKernel`, 27 GCN3
+instructions, 140 bytes).  The correspondence case `c01 copycode` compares it with the bytes the real
+`insts.LoadKernelCodeObjectFromBytes` returns on every run; the proofs in `MgpuProofs/C01Copy*.lean`
+are about this literal. -/
+def copyKernelCode : List Nat := [
+  0x02,0x00,0x02,0xc0,0x04,0x00,0x00,0x00, 0x7f,0x00,0x8c,0xbf, 0x00,0xff,0x00,0x86,0xff,0xff,0x00,0x00,
+  0x08,0x00,0x08,0x92, 0x83,0x00,0x02,0xc0,0x10,0x00,0x00,0x00, 0x03,0x00,0x06,0xc0,0x18,0x00,0x00,0x00,
+  0x08,0x00,0x00,0x32, 0x7f,0x00,0x8c,0xbf, 0x00,0x00,0x00,0x32, 0x02,0x00,0x88,0x7d, 0x6a,0x20,0x80,0xbe,
+  0x12,0x00,0x88,0xbf, 0x03,0x00,0x0a,0xc0,0x00,0x00,0x00,0x00, 0x80,0x02,0x02,0x7e, 0x00,0x03,0x04,0x7e,
+  0x00,0x00,0x91,0xd2,0x9e,0x02,0x02,0x00, 0x7f,0x00,0x8c,0xbf, 0x01,0x02,0x06,0x7e, 0x00,0x00,0x04,0x32,
+  0x03,0x03,0x06,0x38, 0x00,0x00,0x50,0xdc,0x02,0x00,0x00,0x02, 0x03,0x02,0x06,0x7e, 0x02,0x00,0x00,0x32,
+  0x03,0x03,0x02,0x38, 0x70,0x00,0x8c,0xbf, 0x00,0x00,0x70,0xdc,0x00,0x02,0x00,0x00, 0x00,0x00,0x81,0xbf]
+
 /-! ## line protocol
 
+`c01 copycode` → the hex of `copyKernelCode`.
 `c01 emu arch=gcn3|cdna3 code=<hex> co=<hexaddr> entry=N grid=a,b,c wg=a,b,c flags=<13 x 0/1> v5=0|1 wi=N
  ka=<hexaddr>:<hex> pkt=<hexaddr>:<hex> mem=<hexaddr>:<hex>/… out=<hexaddr>:<len>/…`
 → the bytes of the `out` regions after the run, `<hex>/<hex>…`, or `fault:<reason>`.
@@ -299,6 +316,7 @@ def readBytes (m : Mem) (a n : Nat) : List Nat := (List.range n).map fun i => C0
 
 def handle (line : String) : String :=
   let t := words line
+  if t == ["c01", "copycode"] then bytesHex copyKernelCode else
   match kv? t "arch", (kv? t "code").bind hexBytes?, kvHex? t "co", kvNat? t "entry",
         (kv? t "grid").bind natList?, (kv? t "wg").bind natList?, kv? t "flags", kvNat? t "v5", kvNat? t "wi",
         (kv? t "ka").bind parseRegion, (kv? t "pkt").bind parseRegion,
